@@ -188,7 +188,7 @@ def gen_c07(rnd, n, thorough=False):
         bl = boundary_layouts(rnd)
         for tag, layout in rnd.sample(bl, 7) + [bl[0]] + [rnd.pick([b for b in bl if b[0].startswith('inner_ret')])]:
             tags['rules'][tag] = tags['rules'].get(tag, 0) + 1
-            m = rnd.pick([1, 2, 3, 4, 5, 6]) if rnd.chance(0.8) else rnd.pick([0, 7, 8, 9, -1, 2 ** 31])
+            m = rnd.pick([1, 2, 3, 4, 5, 6]) if rnd.chance(0.8) else rnd.pick([0, 7, 8, 9, -1, 2 ** 31, 2 ** 32 + 2, 2 ** 32 + 1, -2 ** 32 + 3, 2 ** 33 + 6, 2 ** 32, 2 ** 40 + 5])
             xff = rnd.pick(XFF_VALID) if rnd.chance(0.75) else rnd.pick(XFF_ALL)
             lay = ' '.join('%d %d' % sn for sn in layout)
             add('newheader', ('enc header %d %08x %d %s' % (m, xff, len(layout), lay)).strip())
